@@ -233,7 +233,7 @@ extern "C" void __asan_on_error() {
         if (!seqx::g_runner->replaying) seqx::g_runner->dump_keys();
     }
 }
-extern "C" const char *__asan_default_options() { return "detect_leaks=0:exitcode=3:allocator_may_return_null=1:detect_stack_use_after_return=0"; }
+extern "C" const char *__asan_default_options() { return "detect_leaks=0:exitcode=3:allocator_may_return_null=1:detect_stack_use_after_return=1"; }
 extern "C" const char *__ubsan_default_options() { return "print_stacktrace=1"; }
 
 // counting replacements of the global allocation functions
